@@ -148,7 +148,7 @@ func (b *BufIO) put(p []byte) error {
 	b.out.mu.Lock()
 	defer b.out.mu.Unlock()
 	if b.out.closed {
-		return fmt.Errorf("bufio: closed")
+		return nil // peer is gone: discard
 	}
 	b.out.q = append(b.out.q, p...)
 	b.out.cond.Broadcast()
